@@ -54,9 +54,10 @@ namespace hgv
             buf.clear();
         }
     };
+    // one trace buffer per thread: executors running on several threads (C07) keep separate traces
     inline Trace &trace()
     {
-        static Trace t;
+        static thread_local Trace t;
         return t;
     }
 
@@ -212,7 +213,7 @@ namespace hgv
     };
     inline Instances &instances()
     {
-        static Instances i;
+        static thread_local Instances i;
         return i;
     }
 
